@@ -55,9 +55,9 @@ func c18ThreadGroup(e *sim.Env) {
 	tg := threadgroup.New()
 	var pr c18Problems
 	var mu sync.Mutex
-	active := 0         // successful Adds whose done has not been called
-	stopReturned := 0   // Stop calls that returned
-	stopBegan := false  // some Stop call has been entered
+	active := 0        // successful Adds whose done has not been called
+	stopReturned := 0  // Stop calls that returned
+	stopBegan := false // some Stop call has been entered
 	var wg sync.WaitGroup
 
 	type op struct {
